@@ -371,6 +371,13 @@ class Rig:
 
     def _on_message(self, data):
         h = data["message"].header
+        tap = self.tap
+        if not getattr(tap.tl, "decided", True):
+            # delivered without looking at _response_queues (reply-only routing: a primary goes straight to the application)
+            with tap.lock:
+                tap.tl.decided = True
+                tap.tl.unrouted = True
+                tap.log.append(("h", tap.dispatcher(), getattr(tap.tl, "serial", None)))
         with self.ev_lock:
             self.events.append(("start", h.system, tag_of(h)))
         bf = self.block_first
